@@ -19,3 +19,6 @@ verif_exe(ninjadump ninjadump.cpp)
 
 add_library(killshim SHARED killshim.c)
 target_link_libraries(killshim PRIVATE dl)
+
+verif_exe(qsim qsim.cpp)
+add_executable(childsim childsim.c)
